@@ -1,7 +1,7 @@
 (* C06: the ACF-CAN builders emit a well-formed, exactly padded message. *)
 From Coq Require Import List NArith ZArith Bool Lia Arith String ZifyN ZifyNat ZifyBool Permutation.
 From O1722 Require Import Sym Bits Host FieldModel FieldProofs Spec SpecProofs RecordTheory AccModel AccProofs FormatChecks
-  NormalProofs Paths CanModel C13Proofs C01Proofs C17Proofs C12Proofs C05Proofs.
+  NormalProofs Paths CanModel C13Proofs C01Proofs C17Proofs C12Proofs C05Proofs FieldOpsProofs.
 From O1722.Generated Require Import Tables.
 Import ListNotations.
 Local Open Scope N_scope.
@@ -69,11 +69,6 @@ Lemma normal_map_mod (l:list N) : normal (map (fun x => x mod 256) l).
 Proof. unfold normal. apply Forall_forall. intros x Hx. apply in_map_iff in Hx. destruct Hx as [y [<- _]]. apply N.mod_lt. lia. Qed.
 
 (* ---------- the format records used by the builders resolve ---------- *)
-Definition name_ok (s:sformat) (name:string) : bool :=
-  match find_sfield (sp_fields s) name with
-  | Some f => (2 <=? List.length (writers_of s f))%nat && (2 <=? List.length (readers_of s f))%nat
-  | None => false
-  end.
 Definition canfmt_ok (c:canfmt) : bool :=
   forallb (name_ok (cf_spec c)) [cf_eff c; cf_id c; cf_fdf c; cf_len c; cf_pad c] &&
   match find_sfield (sp_fields (cf_spec c)) (cf_pad c) with Some f => sf_width f =? 2 | None => false end &&
@@ -96,36 +91,29 @@ Section Build.
   Notation s := (cf_spec c).
   Notation hdr := (sp_hdr_len (cf_spec c)).
 
-  Lemma name_field name : In name [cf_eff c; cf_id c; cf_fdf c; cf_len c; cf_pad c] ->
-    exists f u st pf r, find_sfield (sp_fields s) name = Some f /\ In f (sp_fields s) /\ writers_of s f = (u, st, pf) :: r.
+  Lemma five_ok name : In name [cf_eff c; cf_id c; cf_fdf c; cf_len c; cf_pad c] -> name_ok s name = true.
   Proof.
     intros Hin. unfold canfmt_ok in Hok. apply andb_true_iff in Hok. destruct Hok as [H _].
     apply andb_true_iff in H. destruct H as [H _].
     apply andb_true_iff in H. destruct H as [H _]. apply andb_true_iff in H. destruct H as [H _].
-    rewrite forallb_forall in H. specialize (H name Hin). unfold name_ok in H.
-    destruct (find_sfield (sp_fields s) name) as [f|] eqn:Ef; [|discriminate].
-    destruct (find_sfield_name s _ _ Ef) as [Hf _].
-    destruct (writers_of s f) as [|[[u st] pf] r] eqn:Ew; [discriminate|]. exists f, u, st, pf, r. auto.
+    rewrite forallb_forall in H. exact (H name Hin).
+  Qed.
+  Lemma name_field name : In name [cf_eff c; cf_id c; cf_fdf c; cf_len c; cf_pad c] ->
+    exists f u st pf r, find_sfield (sp_fields s) name = Some f /\ In f (sp_fields s) /\ writers_of s f = (u, st, pf) :: r.
+  Proof.
+    intros Hin. destruct (name_ok_field s name (five_ok name Hin)) as [f [[[u st] pf] [w2 [wr [? [? [? [Ef [Hf [Ew _]]]]]]]]]].
+    exists f, u, st, pf, (w2 :: wr). auto.
   Qed.
 
   (* a field write of the model is the reference write *)
   Lemma setf_exact name v b : In name [cf_eff c; cf_id c; cf_fdf c; cf_len c; cf_pad c] ->
     normal b -> hdr <= blen b ->
     setf LD ST c name v b = Ok (ref_set s name v b).
-  Proof.
-    intros Hin Hn Hb. destruct (name_field name Hin) as [f [u [st [pf [r [Ef [Hf Ew]]]]]]].
-    unfold setf, ref_set. rewrite Ef, Ew.
-    assert (Hp : In (u, st, pf) (writers_of s f)) by (rewrite Ew; left; reflexivity).
-    pose proof (set_step E s Hs f u st pf v b Hf Hp Hn Hb) as H. unfold unwrap in H.
-    destruct (run_setter LD ST cfg (u_tables u) st (Some b) (pf v)) as [[b'|]| |]; try discriminate.
-    inversion H; subst. reflexivity.
-  Qed.
-  Lemma ref_set_inv name v b : normal (ref_set s name v b) \/ ref_set s name v b = b.
-  Proof. unfold ref_set. destruct (find_sfield (sp_fields s) name); [left; apply normal_spec_insert|right; reflexivity]. Qed.
+  Proof. intros Hin Hn Hb. unfold setf. apply (fsetf_exact E s Hs); [apply five_ok; exact Hin|exact Hn|exact Hb]. Qed.
   Lemma normal_ref_set name v b : normal b -> normal (ref_set s name v b).
-  Proof. intros Hn. destruct (ref_set_inv name v b) as [H|H]; [exact H|rewrite H; exact Hn]. Qed.
+  Proof. apply FieldOpsProofs.normal_ref_set. Qed.
   Lemma blen_ref_set name v b : blen (ref_set s name v b) = blen b.
-  Proof. unfold ref_set, blen. destruct (find_sfield (sp_fields s) name); [rewrite length_spec_insert|]; reflexivity. Qed.
+  Proof. apply FieldOpsProofs.blen_ref_set. Qed.
 
   Lemma hdr_small : hdr <= 32.
   Proof.
@@ -381,18 +369,7 @@ Section Build.
   (* ---------- the separate steps compose to the same message ---------- *)
   Lemma setd_exact name v b : In name [cf_eff c; cf_id c; cf_fdf c; cf_len c; cf_pad c] ->
     normal b -> hdr <= blen b -> setd LD ST c name v b = Ok (ref_set s name v b).
-  Proof.
-    intros Hin Hn Hb. unfold canfmt_ok in Hok. apply andb_true_iff in Hok. destruct Hok as [H _].
-    apply andb_true_iff in H. destruct H as [H _]. apply andb_true_iff in H. destruct H as [H _]. apply andb_true_iff in H. destruct H as [H _].
-    rewrite forallb_forall in H. specialize (H name Hin). unfold name_ok in H.
-    unfold setd, ref_set. destruct (find_sfield (sp_fields s) name) as [f|] eqn:Ef; [|discriminate].
-    destruct (find_sfield_name s _ _ Ef) as [Hf _].
-    destruct (writers_of s f) as [|p1 [|[[u st] pf] r]] eqn:Ew; try discriminate.
-    assert (Hp : In (u, st, pf) (writers_of s f)) by (rewrite Ew; right; left; reflexivity).
-    pose proof (set_step E s Hs f u st pf v b Hf Hp Hn Hb) as Hst. unfold unwrap in Hst.
-    destruct (run_setter LD ST cfg (u_tables u) st (Some b) (pf v)) as [[b'|]| |]; try discriminate.
-    inversion Hst; subst. reflexivity.
-  Qed.
+  Proof. intros Hin Hn Hb. unfold setd. apply (fsetd_exact E s Hs); [apply five_ok; exact Hin|exact Hn|exact Hb]. Qed.
 
   Definition ref_sets (l:list (string * N)) (b:buf) : buf := fold_left (fun x p => ref_set s (fst p) (snd p) x) l b.
   Definition five := [cf_eff c; cf_id c; cf_fdf c; cf_len c; cf_pad c].
@@ -501,14 +478,8 @@ Section Readback.
   Lemma getf_ded_exact name b : In name (five cf_full) -> 16 <= blen b ->
     getf_ded LD ST cf_full name b = Ok (fieldval cf_full name b).
   Proof.
-    intros Hin Hb. pose proof cf_full_ok as Hok. unfold canfmt_ok in Hok. apply andb_true_iff in Hok. destruct Hok as [H _].
-    apply andb_true_iff in H. destruct H as [H _]. apply andb_true_iff in H. destruct H as [H _]. apply andb_true_iff in H. destruct H as [H _].
-    rewrite forallb_forall in H. specialize (H name Hin). unfold name_ok in H.
-    unfold getf_ded, fieldval. destruct (find_sfield (sp_fields (cf_spec cf_full)) name) as [f|] eqn:Ef; [|discriminate].
-    destruct (find_sfield_name _ _ _ Ef) as [Hf _].
-    destruct (readers_of (cf_spec cf_full) f) as [|r1 [|[[u g] p] r]] eqn:Er; try (apply andb_true_iff in H; destruct H; discriminate).
-    assert (Hin2 : In (u, g, p) (readers_of (cf_spec cf_full) f)) by (rewrite Er; right; left; reflexivity).
-    exact (readers_read E _ f cf_full_in Hf u g p Hin2 b Hb).
+    intros Hin Hb. unfold getf_ded.
+    exact (fgetd_exact E (cf_spec cf_full) cf_full_in name b (five_ok cf_full cf_full_ok name Hin) Hb).
   Qed.
 
   (* reading the payload length back from a built message returns the original length: for 0..64, and in
